@@ -182,7 +182,7 @@ loop:
 			q := quiesce
 			for _, p := range st.last {
 				if p == "exec.before" {
-					q = 6 * quiesce // a child process needs time to start and to install its signal handlers
+					q = 3 * time.Second // a child process needs time to start, install its handlers, print
 				}
 			}
 			if !st.cancelled && time.Since(st.lastEvent) > q {
